@@ -1,8 +1,193 @@
-(* Props/C19.v -- placeholder until the theorems below are final (see Proofs/SinkProofs.v). *)
-From LV Require Import Base.Bytes Model.Sink Proofs.SinkProofs.
+(* Props/C19.v -- property C19: saving reports sink failures and ignores sink chunking.
+   Statements only; proofs live in Proofs/SinkProofs.v, Proofs/SaveStateProofs.v, Proofs/SinkSaveProofs.v.
 
-Theorem C19_chunking_irrelevant : forall calls s,
-  no_hard s -> run write_all calls s = (WOk, concat calls, N.of_nat (length (concat calls))).
+   Reading guide.  [calls] is the list of buffers the save path hands to write_all, one after the
+   other, each followed by `?` -- ANY list: the theorems do not depend on how the output is cut into
+   calls.  A sink is a [script]: the answers it gives to successive `write` calls (healthy once the
+   script is used up); [run write_all calls s] = (result, bytes the sink holds, CountingWrite.bytes_written).
+   [run qwrite_all] is the same for sinks whose answers are attached to stream positions (what the
+   harness drives the real save_to with). *)
+From LV Require Import Base.Bytes Model.Obj Model.Sink Model.SaveState
+  Proofs.SinkProofs Proofs.SaveStateProofs Proofs.SinkSaveProofs.
+From LV Require Model.Save.
+
+Local Open Scope N_scope.
+
+(* (1) "the bytes written do not depend on how the sink splits writes": a sink that never fails hard
+   receives every byte, in order, and save returns Ok with an exact counter -- for every pattern of
+   short writes and Interrupted answers, and for every way of cutting the output into calls. *)
+Theorem C19_chunking_irrelevant :
+  forall calls s, no_hard s ->
+    run write_all calls s = (WOk, concat calls, N.of_nat (length (concat calls))).
 Proof. exact chunking_irrelevant. Qed.
 
+Theorem C19_rechunking_irrelevant :
+  forall calls1 calls2 s1 s2, concat calls1 = concat calls2 -> no_hard s1 -> no_hard s2 ->
+    run write_all calls1 s1 = run write_all calls2 s2.
+Proof. exact rechunking_irrelevant. Qed.
+
+(* (2) "so cross-reference offsets stay correct under short writes": whenever the code reads the
+   counter before its i-th call, it equals the length of the first i buffers (a function of the
+   requested lengths only) AND the sink really holds exactly those bytes. *)
+Theorem C19_counter_exact :
+  forall calls s i n, counter_before calls s i = Some n ->
+    n = N.of_nat (length (concat (firstn i calls))) /\
+    exists k, run write_all (firstn i calls) s = (WOk, concat (firstn i calls), k).
+Proof. exact counter_exact. Qed.
+
+Theorem C19_offsets_chunking_independent :
+  forall calls s1 s2 i n1 n2,
+    counter_before calls s1 i = Some n1 -> counter_before calls s2 i = Some n2 -> n1 = n2.
+Proof. exact offsets_chunking_independent. Qed.
+
+(* (3) "if the sink fails at any point, saving returns an error rather than success": for EVERY
+   script, delivered bytes are a prefix of the complete output and Ok is returned if and only if
+   the sink holds all of it (never Ok with missing bytes; never an error with nothing missing). *)
+Theorem C19_ok_iff_complete :
+  forall calls s,
+    let '(r, d, _) := run write_all calls s in
+    d = firstn (length d) (concat calls) /\ (r = WOk <-> d = concat calls).
+Proof. exact ok_iff_complete. Qed.
+
+Theorem C19_never_ok_with_missing_bytes :
+  forall calls s d n, run write_all calls s = (WOk, d, n) -> d = concat calls /\ n = N.of_nat (length d).
+Proof. exact never_ok_with_missing_bytes. Qed.
+
+(* (4) the error returned is the sink's own: with a script that is soft up to a hard answer h (an
+   error of kind e, or Ok(0) = WriteZero), either h is never asked because everything was already
+   delivered, or save returns exactly Err e with a strict prefix delivered. *)
+Theorem C19_failure_is_error_and_prefix :
+  forall calls sf h rest e, no_hard sf -> hard_kind h = Some e ->
+    let '(r, d, n) := run write_all calls (sf ++ h :: rest) in
+    (r = WOk /\ d = concat calls) \/
+    (r = WErr e /\ exists p, (p < length (concat calls))%nat /\ d = firstn p (concat calls)).
+Proof. exact failure_is_error_and_prefix. Qed.
+
+(* (5) failure at delivered position p, independent of call boundaries: a positional sink that takes
+   p = quota sf bytes and then answers h. *)
+Theorem C19_failure_at_position :
+  forall calls sf h rest e, no_hard sf -> hard_kind h = Some e ->
+    rd (run qwrite_all calls (sf ++ h :: rest)) =
+    if (quota sf <? N.of_nat (length (concat calls)))
+    then (WErr e, firstn (N.to_nat (quota sf)) (concat calls))
+    else (WOk, concat calls).
+Proof. exact positional_failure_at. Qed.
+
+Theorem C19_positional_rechunking :
+  forall calls1 calls2 s, concat calls1 = concat calls2 ->
+    rd (run qwrite_all calls1 s) = rd (run qwrite_all calls2 s).
+Proof. exact positional_rechunking. Qed.
+
+Theorem C19_positional_is_single_call :
+  forall calls s, rd (run qwrite_all calls s) = rd (run write_all [concat calls] s).
+Proof. exact positional_is_single_call. Qed.
+
+(* (6) "a later save of the same document ...": what a failed save leaves behind.  The save path
+   mutates the document at one point (after [pre], before [post]); a failed save leaves the document
+   untouched if fewer than |pre| bytes were delivered and otherwise exactly as a SUCCESSFUL save
+   leaves it -- nothing else. *)
+Theorem C19_failed_save_residue :
+  forall wa, wa_sound wa ->
+  forall mode ids pre post st s r d st',
+    save_with wa mode ids pre post st s = (r, d, st') ->
+    ((length d < length (concat pre))%nat /\ st' = st /\ r <> WOk) \/
+    ((length (concat pre) <= length d)%nat /\ st' = mutate mode ids st).
+Proof. exact failed_save_residue. Qed.
+
+(* both readings of a sink are sound, so (6) applies to each *)
+Theorem C19_sinks_sound : wa_sound write_all /\ wa_sound qwrite_all.
+Proof. split; [exact write_all_sound | exact qwrite_all_sound]. Qed.
+
+(* table format: the mutation is idempotent and only sets Size, so a re-save issues exactly the
+   calls of a pristine save (same bytes) *)
+Theorem C19_resave_table :
+  (forall st, mutate_table (mutate_table st) = mutate_table st) /\
+  (forall st, s_max_id (mutate_table st) = s_max_id st /\
+              forall k, k <> K_Size -> dict_get (s_trailer (mutate_table st)) k = dict_get (s_trailer st) k) /\
+  (forall pre_of post_of st st', st' = st \/ st' = mutate_table st ->
+      table_calls pre_of post_of st' = table_calls pre_of post_of st).
+Proof.
+  split; [exact mutate_table_idem|]. split; [|exact resave_table_same_calls].
+  intro st. destruct (mutate_table_frame st) as [H1 [_ H3]]. auto.
+Qed.
+
+(* stream format: each save that reaches the cross-reference stream consumes one object number and
+   rewrites the bookkeeping keys; the bytes before the stream object (all objects, at the same
+   offsets) are those of a pristine save.  PARTIAL: that the re-saved file LOADS to the same
+   content needs the loader (C01/C03); on the implementation it is checked at every failure
+   offset by the harness. *)
+Theorem C19_resave_stream_partial :
+  (forall ids st n, s_max_id (iter n (mutate_stream ids) st) = s_max_id st + N.of_nat n) /\
+  (forall ids st k, dict_has (s_trailer st) K_Filter = false -> ~ bookkeeping k ->
+      dict_get (s_trailer (mutate_stream ids st)) k = dict_get (s_trailer st) k) /\
+  (forall pre post_of ids st st',
+      firstn (length (concat pre)) (concat (stream_calls pre post_of ids st')) =
+      firstn (length (concat pre)) (concat (stream_calls pre post_of ids st))).
+Proof.
+  split; [intros; apply stream_residue_after_n|]. split; [exact mutate_stream_frame | exact resave_stream_same_body].
+Qed.
+
+(* (7) instantiated at the save model of Model/Save.v (the bytes of property C01) *)
+Theorem C19_save_chunking_irrelevant :
+  forall xt d calls, concat calls = Save.so_bytes (Save.save xt d) ->
+  forall s, no_hard s ->
+    run write_all calls s = (WOk, Save.so_bytes (Save.save xt d), N.of_nat (length (Save.so_bytes (Save.save xt d)))).
+Proof. exact save_chunking_irrelevant. Qed.
+
+Theorem C19_save_failure_at_position :
+  forall xt d calls, concat calls = Save.so_bytes (Save.save xt d) ->
+  forall sf h rest e, no_hard sf -> hard_kind h = Some e ->
+    rd (run qwrite_all calls (sf ++ h :: rest)) =
+    if (quota sf <? N.of_nat (length (Save.so_bytes (Save.save xt d))))
+    then (WErr e, firstn (N.to_nat (quota sf)) (Save.so_bytes (Save.save xt d)))
+    else (WOk, Save.so_bytes (Save.save xt d)).
+Proof. exact save_failure_at_position. Qed.
+
+Theorem C19_save_state_agrees :
+  forall d, Save.so_status (Save.save Save.XTable d) = Save.SaveOk ->
+    state_of (Save.so_doc (Save.save Save.XTable d)) = mutate_table (state_of d).
+Proof. exact save_table_state. Qed.
+
+(* non-vacuity *)
+Theorem C19_example_soft :
+  no_hard ex_soft /\
+  run write_all ex_calls ex_soft = (WOk, bs "%PDF-1.5" ++ [x0a] ++ bs "1 0 objnull endobj", 27).
+Proof. split; [exact ex_soft_no_hard | exact ex_soft_run]. Qed.
+
+Theorem C19_example_failure :
+  run write_all ex_calls [Accept 3; Interrupted; Fail EBrokenPipe] = (WErr EBrokenPipe, bs "%PD", 8) /\
+  rd (run qwrite_all ex_calls [Accept 12; Interrupted; Fail EStorageFull]) =
+  (WErr EStorageFull, bs "%PDF-1.5" ++ [x0a] ++ bs "1 0").
+Proof. split; [exact ex_fail_run | exact (proj1 ex_positional)]. Qed.
+
+Theorem C19_example_counter : counter_before ex_calls ex_soft 4 = Some 16.
+Proof. exact ex_counter. Qed.
+
+Theorem C19_example_residue :
+  save_with qwrite_all XStream [1; 2; 4] [bs "%PDF-1.5"; bs "objects"] [bs "xrefstream"] ex_state [Accept 9; Fail EStorageFull]
+  = (WErr EStorageFull, bs "%PDF-1.5o", ex_state) /\
+  save_with write_all XStream [1; 2; 4] [bs "%PDF-1.5"; bs "objects"] [bs "xrefstream"] ex_state [Accept 8; Accept 7; Accept 3; Zero]
+  = (WErr EWriteZero, bs "%PDF-1.5objectsxre", mutate_stream [1; 2; 4] ex_state).
+Proof. exact ex_residue. Qed.
+
 Print Assumptions C19_chunking_irrelevant.
+Print Assumptions C19_rechunking_irrelevant.
+Print Assumptions C19_counter_exact.
+Print Assumptions C19_offsets_chunking_independent.
+Print Assumptions C19_ok_iff_complete.
+Print Assumptions C19_never_ok_with_missing_bytes.
+Print Assumptions C19_failure_is_error_and_prefix.
+Print Assumptions C19_failure_at_position.
+Print Assumptions C19_positional_rechunking.
+Print Assumptions C19_positional_is_single_call.
+Print Assumptions C19_failed_save_residue.
+Print Assumptions C19_sinks_sound.
+Print Assumptions C19_resave_table.
+Print Assumptions C19_resave_stream_partial.
+Print Assumptions C19_save_chunking_irrelevant.
+Print Assumptions C19_save_failure_at_position.
+Print Assumptions C19_save_state_agrees.
+Print Assumptions C19_example_soft.
+Print Assumptions C19_example_failure.
+Print Assumptions C19_example_counter.
+Print Assumptions C19_example_residue.
